@@ -505,3 +505,6 @@ def run(chk, args):
             c16_nat.run_periodic_part(chk, args)
         else:
             c16_nat.run_nat_part(chk, args)
+
+
+MANIFEST["note"] += ' Extension parts run with the check: Periodic and ProxyNAT (--only periodic,nat) and ProxyRelay (spec/ProxyRelay: the data path of a session - ordering, close propagation, back-pressure with stalled clients, traffic figures - on the real proxy with real data, --only relay).'
